@@ -40,6 +40,7 @@ pub open spec fn lov(vals: Seq<AVal>) -> AVal {
 }
 
 /// end of the attribute being read: bind its name to its value(s) in the current group
+#[verifier::opaque]
 pub open spec fn m_flush(s: MState) -> MState {
     match s.name {
         None => s,
@@ -61,6 +62,7 @@ pub open spec fn m_delim_legal(s: MState) -> bool {
 }
 
 /// §3.1.2: end the attribute and the group, begin the group `d`
+#[verifier::opaque]
 pub open spec fn m_delim(s: MState, d: DelimiterTag) -> MState {
     let f = m_flush(s);
     MState {
@@ -122,6 +124,7 @@ pub open spec fn pair_fold(vals: Seq<AVal>, n: nat) -> PairAcc
     }
 }
 
+#[verifier::opaque]
 pub open spec fn pair_map(vals: Seq<AVal>) -> Map<String, AVal> {
     pair_flush(pair_fold(vals, vals.len()))
 }
@@ -129,6 +132,7 @@ pub open spec fn pair_map(vals: Seq<AVal>) -> Map<String, AVal> {
 // ---------------------------------------------------------------- values
 
 /// what a well-formed message may contain at this point
+#[verifier::opaque]
 pub open spec fn m_value_legal(s: MState, tag: u8, name: String, body: Seq<u8>) -> bool {
     &&& s.stack.len() >= 1
     &&& spec_val_dec(tag, body) is Some
@@ -139,6 +143,7 @@ pub open spec fn m_value_legal(s: MState, tag: u8, name: String, body: Seq<u8>) 
 }
 
 /// §3.1.4 / §3.1.5 / §3.1.6
+#[verifier::opaque]
 pub open spec fn m_value(s: MState, tag: u8, name: String, body: Seq<u8>) -> MState {
     let s1 = if name@.len() > 0 {
         let f = m_flush(s);
@@ -165,6 +170,57 @@ pub open spec fn m_value(s: MState, tag: u8, name: String, body: Seq<u8>) -> MSt
             name: s1.name,
             stack: s1.stack.update(top, s1.stack[top].push(spec_val_dec(tag, body).unwrap())),
         }
+    }
+}
+
+
+// ---------------------------------------------------------------- the whole attribute section
+
+/// Run the machine over the attribute section `b` (the bytes after the 8-octet header), tokenised as in
+/// RFC 8010 §3.1.1: returns the state after the end-of-attributes tag and the bytes that follow it, or
+/// `None` when `b` is not a well-formed attribute section (truncated, a byte outside the tag ranges where a
+/// tag is expected, a value body too short for its syntax, or a token that is not legal at that point).
+pub open spec fn m_run(b: Seq<u8>, s: MState) -> Option<(MState, Seq<u8>)>
+    decreases b.len()
+{
+    if b.len() == 0 {
+        None
+    } else if 0x01 <= b[0] <= 0x05 {
+        if m_delim_legal(s) {
+            let s2 = m_delim(s, crate::verif_tables::delimiter_tag_of(b[0] as int).unwrap());
+            if b[0] == 0x03 { Some((s2, b.skip(1))) } else { m_run(b.skip(1), s2) }
+        } else {
+            None
+        }
+    } else if 0x10 <= b[0] <= 0x4a {
+        let c = b.skip(1);
+        if c.len() >= 2 && c.len() >= 2 + be16(c) as int + 2
+            && c.len() >= 2 + be16(c) as int + 2 + be16(c.skip(2).skip(be16(c) as int)) as int {
+            let nl = be16(c) as int;
+            let name = str_of(lossy(c.skip(2).take(nl)));
+            let c2 = c.skip(2).skip(nl);
+            let vl = be16(c2) as int;
+            let body = c2.skip(2).take(vl);
+            if m_value_legal(s, b[0], name, body) {
+                m_run(c2.skip(2).skip(vl), m_value(s, b[0], name, body))
+            } else {
+                None
+            }
+        } else {
+            None
+        }
+    } else {
+        None
+    }
+}
+
+/// C04: the attribute groups an RFC 8010 reading assigns to a whole message `b` (header included)
+pub open spec fn m_message(b: Seq<u8>) -> Option<(Seq<MGroup>, Seq<u8>)> {
+    if b.len() >= 8 && m_run(b.skip(8), m_init()) is Some {
+        let r = m_run(b.skip(8), m_init()).unwrap();
+        Some((r.0.groups, r.1))
+    } else {
+        None
     }
 }
 
